@@ -72,7 +72,7 @@ class Syntactic(object):
 
 class Property(object):
   def __init__(self, pid, units, bounded=(), syntactic=(), trusted_base=(), assumptions=(),
-               findings_witness=None, label_prefixes=None):
+               findings_witness=None, label_prefixes=None, finding_labels=None):
     self.pid = pid
     self.units = list(units)
     self.bounded = list(bounded)
@@ -81,6 +81,10 @@ class Property(object):
     self.assumptions = list(assumptions)
     self.findings_witness = findings_witness or {}   # finding id -> fn() -> (still_fails, detail)
     self.label_prefixes = label_prefixes or [pid + '/']   # shared units: keep only these labels
+    # obligation label -> id of a known finding (known_findings.json) whose region is exactly the
+    # failure of that obligation; the refutation is reported as KNOWN-FINDING only while the
+    # finding is listed as 'finding' AND its native witness still fails
+    self.finding_labels = finding_labels or {}
 
 
 def load_known_findings():
@@ -209,6 +213,7 @@ def run_property(prop, tier='quick', seed=0, only_unit=None, verbose=False):
   by_label = {}
   refuted_labels = {}
   unknown_obs = {}
+  known_refuted = []
 
   for ob in all_obs:
     r = results[ob.uid]
@@ -332,7 +337,32 @@ def run_property(prop, tier='quick', seed=0, only_unit=None, verbose=False):
         violations.append((label, path, ''))
 
   # refutations -> replay
+  witness_cache = {}
+
+  def known_finding_for(label):
+    fid = prop.finding_labels.get(label)
+    if fid is None:
+      return None
+    ent = [e for e in findings if e.get('id') == fid]
+    if not ent:
+      return None
+    if fid not in witness_cache:
+      w = prop.findings_witness.get(fid)
+      try:
+        witness_cache[fid] = w() if w else (False, 'no witness')
+      except Exception as ex:
+        witness_cache[fid] = (False, 'witness crashed: %r' % (ex,))
+    still, detail = witness_cache[fid]
+    return ent[0] if still else None
+
   for label, obs in sorted(refuted_labels.items()):
+    kf = known_finding_for(label)
+    if kf is not None:
+      line = "KNOWN-FINDING: property=%s %s" % (prop.pid, kf.get('what', kf.get('id')))
+      if line not in known_lines:
+        known_lines.append(line)
+      known_refuted.append(label)
+      continue
     ob = obs[0]
     u = unit_of[id(ob)]
     model = results[ob.uid]['z3'][1].get('model', {})
@@ -386,7 +416,9 @@ def run_property(prop, tier='quick', seed=0, only_unit=None, verbose=False):
       fid = fail.get('id')
       listed = [e for e in findings if e.get('id') == fid]
       if listed:
-        known_lines.append("KNOWN-FINDING: property=%s %s" % (prop.pid, listed[0].get('what', fid)))
+        line = "KNOWN-FINDING: property=%s %s" % (prop.pid, listed[0].get('what', fid))
+        if line not in known_lines:
+          known_lines.append(line)
       else:
         path = os.path.join(replay_dir, _safe(b.name + '-' + str(fid)) + '.json')
         with open(path, 'w') as f:
@@ -397,7 +429,7 @@ def run_property(prop, tier='quick', seed=0, only_unit=None, verbose=False):
   # known findings with native witnesses (proof-side findings)
   for e in findings:
     w = prop.findings_witness.get(e.get('id'))
-    if w is None:
+    if w is None or e.get('id') in prop.finding_labels.values():
       continue
     try:
       still, detail = w()
@@ -407,7 +439,10 @@ def run_property(prop, tier='quick', seed=0, only_unit=None, verbose=False):
     if still:
       known_lines.append("KNOWN-FINDING: property=%s %s" % (prop.pid, e.get('what', e.get('id'))))
 
-  n_obl = len(all_obs) + len(syn_results)
+  # obligations that fall inside a recorded known finding are reported separately: they are not
+  # proved, and they are not counted among the obligations this run claims to have discharged
+  n_known = sum(by_label[l]['instances'] - by_label[l]['discharged'] for l in known_refuted)
+  n_obl = len(all_obs) + len(syn_results) - n_known
   wall = time.time() - t0
   funcs, files = index.evidence()
   evidence = {
@@ -434,6 +469,8 @@ def run_property(prop, tier='quick', seed=0, only_unit=None, verbose=False):
       'syntactic_obligations': [{'name': s.name, 'what': s.what, 'ok': ok, 'detail': detail}
                                 for (s, ok, detail) in syn_results],
       'known_findings_reported': known_lines,
+      'obligations_refuted_inside_a_known_finding': known_refuted,
+      'obligation_instances_inside_known_findings': n_known,
       'untracked_containers': weak_notes,
       'undecided': status['undecided'],
       'checker_errors': status['crash'] + status['vacuous'],
